@@ -9,6 +9,16 @@ Events (python side, see U_Conn.v for the model encoding):
   ("stick", now)                           ("recv", now, bytes)
   ("disc",)                                ("cfg", which, ticks)
   ("hello", now, with_cb)                  ("getmsgs",)
+Optional extensions (absent = the behaviour above):
+  ("send", payload, retry, cbid, raises) / ("sendg", payload, cbid, raises): the user callback records its
+      invocation and then RAISES (raises: 1 always, 2 only when called with False, 3 only when called with
+      True).  The implementation logs and continues, so the model event is the same as without the flag.
+  ("setmtu", mtu): Packet.setMTU(mtu) while the connection exists; model event [9, env'] — only understood
+      by unit conn_run_mtu (coq/Extract/U_ConnMtu.v), not by conn_run.
+  ("hello", now, 2): the connect callback records its invocation and then RAISES (the exception leaves
+      UdpClient.update(); Conn.v does not describe that: implementation-only scenarios).
+  Impl.cb_hook = fn(cbid, ok): called from INSIDE every user send callback after it was recorded (lets a scenario
+      issue API calls from inside a callback; implementation-only).
 """
 import struct, hashlib, binascii, types
 from harness import lib
@@ -242,6 +252,9 @@ class Impl:
         self.keys = keys
         self.cblog = []
         self.conncb = []
+        self.cb_hook = None
+        self.pin = None        # the key the client was CONFIGURED with (set by the "hello" event from UdpClient's own
+                               # attribute); connections built directly in the established state have none
         self.addr = ("10.0.0.%d" % (1 if role == "client" else 2), 4000)
         if role == "client":
             self.sock = FakeSock()
@@ -250,6 +263,8 @@ class Impl:
             sock = self.sock
             CL.select = types.SimpleNamespace(select=lambda r, w, x, t: ([s for s in r if s.inbox], w, []))
             self.conn = None
+            if not established:
+                self.pin = self.client.server_public_key
             if established:
                 self.client.addr = self.addr
                 self.client.sock = self.sock
@@ -267,12 +282,16 @@ class Impl:
             self.conn.session_key_bytes = keys.fixed(key) if key is not None else None
             self.conn.last_recv_time = CLOCK.time()
 
-    def user_cb(self, cbid):
+    def user_cb(self, cbid, raises=0):
         if cbid is None:
             return None
 
         def f(ok, _id=cbid):
             self.cblog.append([1, _id, 1 if ok else 0])
+            if self.cb_hook is not None:
+                self.cb_hook(_id, ok)
+            if raises == 1 or (raises == 2 and not ok) or (raises == 3 and ok):
+                raise RuntimeError("user send callback %d raises" % _id)
         f._verif_id = cbid
         return f
 
@@ -306,7 +325,9 @@ class Impl:
             o = [9, 0, 0, 0, b"", -1]
             try:
                 if typ == 2 and self.role == "client":
-                    m = Serializable.loadb(p, server_public_key=conn.server_public_key)
+                    # verification under the key the client was CONFIGURED with (not under whatever the
+                    # connection object holds at this moment)
+                    m = Serializable.loadb(p, server_public_key=self.pin)
                     kb = crypto.ecdh_client(conn.session_key, m.server_pubkey, m.salt)
                     o = [0, 1, m.token, self.keys.id_of(kb), b"", -1]
                 elif typ == 1 and self.role == "server":
@@ -333,20 +354,21 @@ class Impl:
         n_handler = len(self.handler.events) if self.role == "server" else 0
         mev = None
         if kind == "send":
-            _, payload, retry, cbid = ev
+            _, payload, retry, cbid = ev[:4]
             try:
-                self.conn.send(payload, retry=retry, callback=self.user_cb(cbid))
+                self.conn.send(payload, retry=retry, callback=self.user_cb(cbid, ev[4] if len(ev) > 4 else 0))
             except Exception as e:   # noqa
                 outs.append([3, lib.exc_code(e)])
             mev = [0, payload, retry, -1 if cbid is None else cbid]
         elif kind == "sendg":
             # the public guaranteed-delivery API: UdpClient.send_guaranteed / ServerClientConnection.send_guaranteed
-            _, payload, cbid = ev
+            _, payload, cbid = ev[:3]
+            rz = ev[3] if len(ev) > 3 else 0
             try:
                 if self.role == "client":
-                    self.client.send_guaranteed(payload, callback=self.user_cb(cbid))
+                    self.client.send_guaranteed(payload, callback=self.user_cb(cbid, rz))
                 else:
-                    self.conn.send_guaranteed(payload, callback=self.user_cb(cbid))
+                    self.conn.send_guaranteed(payload, callback=self.user_cb(cbid, rz))
             except Exception as e:   # noqa
                 outs.append([3, lib.exc_code(e)])
             mev = [0, payload, -1, -1 if cbid is None else cbid]
@@ -432,9 +454,14 @@ class Impl:
             _, now, with_cb = ev
             CLOCK.t = now
             cb = None
-            if with_cb:
+            if with_cb == 2:
+                def cb(ok):
+                    self.conncb.append(1 if ok else 0)
+                    raise RuntimeError("connect callback raises")
+            elif with_cb:
                 cb = lambda ok: self.conncb.append(1 if ok else 0)   # noqa
             self.client.connect(self.addr, cb)
+            self.pin = self.client.server_public_key
             self.conn = self.client.conn
             self.conn.clock = CLOCK.time
             hello = bytes(self.conn.outgoing_messages[-1].payload)
@@ -445,6 +472,10 @@ class Impl:
             else:
                 self.conn.incoming_messages = []
             mev = [7]
+        elif kind == "setmtu":
+            from mpgameserver.connection import Packet
+            Packet.setMTU(ev[1])
+            mev = [9, [Packet.MAX_PAYLOAD_SIZE, Packet.MAX_FRAGMENT_SIZE, Packet.MAX_FRAGMENTS]]
         else:
             raise ValueError(kind)
         return outs, mev
